@@ -198,6 +198,9 @@ def coll_unit():
         Inst('FeatureCollection.__eq__', 'fcEqFc', [('self', 'GV.Coll'), ('other', 'FCA')], 'Bool'),
         Inst('FeatureCollection.__eq__', 'fcEqTrack', [('self', 'GV.Coll'), ('other', 'TrackA')], 'Bool'),
         Inst('FeatureCollection.__eq__', 'fcEqOther', [('self', 'GV.Coll'), ('other', 'Query')], 'Bool'),
+        Inst('Track.__eq__', 'trackEqTrack', [('self', 'GV.Coll'), ('other', 'TrackA')], 'Bool'),
+        Inst('Track.__eq__', 'trackEqFc', [('self', 'GV.Coll'), ('other', 'FCA')], 'Bool'),
+        Inst('Track.__eq__', 'trackEqOther', [('self', 'GV.Coll'), ('other', 'Query')], 'Bool'),
     ]
     py2lean.LEAN_TYPE.setdefault('Item', 'GV.Coll.Shape')
     py2lean.LEAN_TYPE.setdefault('Slice3', 'Option Int × Option Int × Option Int')
